@@ -686,6 +686,7 @@ type pass struct {
 	name  string
 	chunk int64  // 0 = the pass with R2,R3,R4 (+R6)
 	skip  string // configs whose name starts with one of these (comma separated) are left out of this pass
+	depth int    // >0: histories longer than this are left out of this pass
 }
 
 func (p pass) wants(c config) bool {
@@ -842,7 +843,11 @@ func runPass(run *ev.Run, cfgs []config, p pass, a *agg, deadline time.Time, r6e
 		if !p.wants(cfg) {
 			continue
 		}
-		enumerate(cfg, func(h []int) { jobs <- job{cfg, h} })
+		enumerate(cfg, func(h []int) {
+			if p.depth == 0 || len(h) <= p.depth {
+				jobs <- job{cfg, h}
+			}
+		})
 	}
 	close(jobs)
 	wg.Wait()
@@ -919,12 +924,13 @@ func main() {
 			cfgs[i].depth = dd
 		}
 	}
-	passes := []pass{{"routes R2,R3,R4,R6", 0, ""}, {"R5 chunk=7", 7, ""}, {"R5 chunk=1MiB (not full/, sessions/)", 1 << 20, "full/,sessions/"}}
+	passes := []pass{{"routes R2,R3,R4,R6", 0, "", 0}, {"R5 chunk=7", 7, "", 0}, {"R5 chunk=1MiB (not full/, sessions/)", 1 << 20, "full/,sessions/", 0}}
 	budget := 90 * time.Second
 	r6every := 40
 	if run.Tier == "thorough" {
 		allPairs = true
-		passes = []pass{{"routes R2,R3,R4,R6", 0, ""}, {"R5 chunk=7", 7, ""}, {"R5 chunk=1MiB", 1 << 20, ""}, {"R5 chunk=4096 (not full/)", 4096, "full/"}, {"R5 chunk=1 (not full/)", 1, "full/"}}
+		passes = []pass{{"routes R2,R3,R4,R6", 0, "", 0}, {"R5 chunk=7", 7, "", 0}, {"R5 chunk=1MiB", 1 << 20, "", 0}, {"R5 chunk=4096 (not full/)", 4096, "full/", 0},
+			{"R5 chunk=1 (not full/, histories of length<=3)", 1, "full/", 3}}
 		budget = 22 * time.Minute
 		r6every = 10
 	}
@@ -1030,7 +1036,7 @@ func doReplay(path string, cfgs []config, passes []pass) int {
 		if cfg.name != doc.First.Replay.Config {
 			continue
 		}
-		p := pass{"replay", doc.First.Replay.Chunk, ""}
+		p := pass{"replay", doc.First.Replay.Chunk, "", 0}
 		if p.chunk != 0 {
 			kv.MaxSnapshotChunkSize = p.chunk
 		}
